@@ -202,7 +202,7 @@ Definition step (s:st) (enc:nat) (c:card) (parts:option (list str)) : st :=
 (* what DrawRelation prints for a column, and the symbol it relates the table to (if any) *)
 Definition rel_line (f:positive * fty) : item :=
   IField (fst f) (match snd f with
-                  | FRef r => match r_path r with p0 :: p1 :: _ => LFK (p0 ++ p1) | _ => LPrim 0 end
+                  | FRef r => match r_path r with p0 :: p1 :: _ => LFK (p0 ++ p1) | short => LRefd (join (r_parts r ++ short)) end
                   | FPrim p => LPrim p
                   | _ => LPrim 0
                   end).
@@ -223,7 +223,8 @@ Lemma rel_field_step : forall tm eapp enc s f s' o,
 Proof.
   intros tm eapp enc s [n t] s' o. unfold draw_rel_field, rel_line, rel_parts, step. cbn [fst snd].
   destruct t as [p|r|e|e|e|]; try (intros [= <- <-]; split; reflexivity).
-  destruct (r_path r) as [|p0 [|p1 rest]]; try discriminate.
+  destruct (r_path r) as [|p0 [|p1 rest]];
+    try (cbn [sh_rel_guards_short_path fixed_shape]; intros [= <- <-]; split; reflexivity).
   cbn [sh_rel_target sh_rel_checks_target sh_rel_count_new sh_rel_count_again fixed_shape andb].
   destruct (has_type tm _) eqn:E; cbn [negb].
   - destruct (uvar (syms s) _) as [sy tgt]. intros [= <- <-]. split; reflexivity.
@@ -459,10 +460,9 @@ Proof.
   - intros [= <- <- <-] Hinv. rewrite app_nil_r. split; [apply extends_refl|]. split; [exact Hinv|]. split; [reflexivity|discriminate].
 Qed.
 
-Definition in_view (filt:option atom) (e:entity) : bool :=
-  match filt with Some a => Pos.eqb (e_app e) a | None => true end.
+Notation in_view0 := (in_view ViewAppEq).
 (* the types the diagram covers, in order *)
-Definition drawn (filt:option atom) (tm:list entity) : list entity := filter (in_view filt) tm.
+Definition drawn (filt:option atom) (tm:list entity) : list entity := filter (in_view0 filt) tm.
 
 Lemma entities_inv : forall filt tm ign es s isrel P s' r' o,
   draw_entities sh0 filt tm ign s isrel es = Ok (s', r', o) -> inv s P ->
@@ -472,9 +472,7 @@ Lemma entities_inv : forall filt tm ign es s isrel P s' r' o,
 Proof.
   intros filt tm ign. induction es as [|e es IH]; intros s isrel P s' r' o; cbn [draw_entities drawn filter].
   - intros [= <- <- <-] Hinv. cbn [flat_map]. rewrite app_nil_r. split; [apply extends_refl|]. split; [exact Hinv|]. split; [reflexivity|intros e []].
-  - assert (Hs : match filt with Some a => negb (Pos.eqb (e_app e) a) | None => false end = negb (in_view filt e))
-      by (unfold in_view; destruct filt; reflexivity).
-    rewrite Hs. destruct (in_view filt e) eqn:V; cbn [negb].
+  - cbn [sh_view fixed_shape]. destruct (in_view0 filt e) eqn:V; cbn [negb].
     2:{ intros H Hinv. exact (IH _ _ _ _ _ _ H Hinv). }
     destruct (draw_entity sh0 tm ign s isrel e) as [[[s1 r1] o1]|] eqn:E1; [|discriminate].
     destruct (draw_entities sh0 filt tm ign s1 r1 es) as [[[s2 r2] o2]|] eqn:E2; [|discriminate].
@@ -671,14 +669,14 @@ Qed.
 
 Definition ex_nested : list entity :=
   [ {| e_app := 2%positive; e_name := [4%positive];
-       e_def := DTuple [(1%positive, FRef {| r_ctx := 2%positive; r_app := None; r_path := [[4%positive]; [5%positive]] |})] |};
+       e_def := DTuple [(1%positive, FRef {| r_ctx := 2%positive; r_app := None; r_parts := []; r_path := [[4%positive]; [5%positive]] |})] |};
     {| e_app := 2%positive; e_name := [4%positive; 5%positive]; e_def := DTuple [] |} ].
 
 (* a reference by a nested name (A.B inside application 2) to a type the diagram declares gets no line *)
 Theorem dm_edges_exact_refuted : exists es o a n,
   draw None es = Ok o /\ In (IClass a (2%positive :: n) HClass) o /\
   In {| e_app := 2%positive; e_name := [4%positive];
-        e_def := DTuple [(1%positive, FRef {| r_ctx := 2%positive; r_app := None; r_path := [[4%positive]; [5%positive]] |})] |} es /\
+        e_def := DTuple [(1%positive, FRef {| r_ctx := 2%positive; r_app := None; r_parts := []; r_path := [[4%positive]; [5%positive]] |})] |} es /\
   n = join [[4%positive]; [5%positive]] /\ forall x y, count_edges o x y = 0.
 Proof.
   exists ex_nested. eexists. exists 1, [4%positive; 5%positive].
@@ -689,7 +687,7 @@ Qed.
 Definition ex_prim_ref : list entity :=
   [ {| e_app := 2%positive; e_name := [4%positive]; e_def := DPrim 4 |};
     {| e_app := 2%positive; e_name := [5%positive];
-       e_def := DTuple [(1%positive, FRef {| r_ctx := 2%positive; r_app := None; r_path := [[4%positive]] |})] |} ].
+       e_def := DTuple [(1%positive, FRef {| r_ctx := 2%positive; r_app := None; r_parts := []; r_path := [[4%positive]] |})] |} ].
 
 (* a reference to a primitive alias gets a line, but to an alias that declares no class *)
 Theorem dm_edges_prim_alias_refuted : exists es o a b c ar,
@@ -703,12 +701,69 @@ Qed.
 (* non-vacuity: a module on which draw succeeds, with two references to one target counted twice *)
 Definition ex_two_refs : list entity :=
   [ {| e_app := 2%positive; e_name := [4%positive];
-       e_def := DTuple [(1%positive, FRef {| r_ctx := 2%positive; r_app := None; r_path := [[5%positive]] |});
-                        (2%positive, FSet (ERef {| r_ctx := 2%positive; r_app := None; r_path := [[5%positive]] |}))] |};
+       e_def := DTuple [(1%positive, FRef {| r_ctx := 2%positive; r_app := None; r_parts := []; r_path := [[5%positive]] |});
+                        (2%positive, FSet (ERef {| r_ctx := 2%positive; r_app := None; r_parts := []; r_path := [[5%positive]] |}))] |};
     {| e_app := 2%positive; e_name := [5%positive]; e_def := DTuple [(1%positive, FPrim 4)] |};
     {| e_app := 3%positive; e_name := [5%positive];
        e_def := DRel [(1%positive, FPrim 4);
-                      (2%positive, FRef {| r_ctx := 3%positive; r_app := None; r_path := [[5%positive]; [6%positive]] |});
-                      (3%positive, FRef {| r_ctx := 3%positive; r_app := None; r_path := [[5%positive]; [6%positive]] |})] |} ].
+                      (2%positive, FRef {| r_ctx := 3%positive; r_app := None; r_parts := []; r_path := [[5%positive]; [6%positive]] |});
+                      (3%positive, FRef {| r_ctx := 3%positive; r_app := None; r_parts := []; r_path := [[5%positive]; [6%positive]] |})] |} ].
 Example ex_two_refs_draws : exists o, draw None ex_two_refs = Ok o /\ count_edges o 0 1 = 2 /\ count_edges o 2 2 = 2.
 Proof. eexists. split; [vm_compute; reflexivity|]. split; reflexivity. Qed.
+
+(* ------------------------------------------------------------------ the per-application view *)
+(* the filter keeps exactly the entities of that application *)
+Lemma drawn_app_exact : forall a tm e, In e (drawn (Some a) tm) <-> In e tm /\ e_app e = a.
+Proof.
+  intros a tm e. unfold drawn. rewrite filter_In. unfold in_view. rewrite Pos.eqb_eq. reflexivity.
+Qed.
+
+Lemma relationship_only_edges : forall r ar i, In i (draw_relationship r ar) -> exists f t c, i = IEdge f t c ar.
+Proof.
+  intros r ar i H. unfold draw_relationship in H. apply in_flat_map in H. destruct H as [[[f t0] [[e c] n]] [_ H]].
+  cbn [edge_lines] in H. apply repeat_spec in H. eauto.
+Qed.
+
+Lemma spec_block_class : forall sy e al n h, In (IClass al n h) (spec_block sy e) -> n = e_key e /\ is_drawn e = true.
+Proof.
+  intros sy e al n h. unfold spec_block, is_drawn. destruct (e_def e) as [fs|fs|p| | |]; cbn [In].
+  - intros [[= _ <- _]|H]; [split; reflexivity|]. apply in_app_or in H. destruct H as [H|[H|[]]]; [|discriminate].
+    apply in_map_iff in H. destruct H as [f [H _]]. discriminate.
+  - intros [[= _ <- _]|H]; [split; reflexivity|]. apply in_app_or in H. destruct H as [H|[H|[]]]; [|discriminate].
+    apply in_flat_map in H. destruct H as [f [_ H]]. unfold tuple_line in H.
+    destruct (snd f); cbn [In] in H; try destruct H as [H|[]]; try discriminate. destruct H.
+  - intros [[= _ <- _]|[H|[]]]; [split; reflexivity|discriminate].
+  - intros [[= _ <- _]|[H|[]]]; [split; reflexivity|discriminate].
+  - intros [].
+  - intros [].
+Qed.
+
+Lemma spec_block_has_class : forall sy e, is_drawn e = true -> exists al h, In (IClass al (e_key e) h) (spec_block sy e).
+Proof.
+  intros sy e. unfold spec_block, is_drawn. destruct (e_def e); try discriminate; intros _; eexists; eexists; left; reflexivity.
+Qed.
+
+(* per-application view of application a: the classes of the diagram are exactly the tables, tuples, primitive
+   aliases and enums OF THAT APPLICATION - none of another application (however its name is spelled), none missing *)
+Theorem view_of_app_exact : forall a es o, draw (Some a) es = Ok o ->
+  (forall al n h, In (IClass al n h) o ->
+     exists e, In e (type_map es) /\ e_app e = a /\ is_drawn e = true /\ n = e_key e) /\
+  (forall e, In e (type_map es) -> e_app e = a -> is_drawn e = true -> exists al h, In (IClass al (e_key e) h) o).
+Proof.
+  intros a es o H. destruct (dm_blocks_exact _ _ _ H) as [sy [r [ar ->]]]. split.
+  - intros al n h Hin. apply in_app_or in Hin. destruct Hin as [Hin|Hin].
+    + apply in_flat_map in Hin. destruct Hin as [e [He Hb]]. apply drawn_app_exact in He. destruct He as [He Ha].
+      destruct (spec_block_class _ _ _ _ _ Hb) as [-> Hd]. exists e. repeat split; assumption.
+    + apply relationship_only_edges in Hin. destruct Hin as [f [t [c Hin]]]. discriminate.
+  - intros e He Ha Hd. destruct (spec_block_has_class sy e Hd) as [al [h Hin]]. exists al, h.
+    apply in_or_app. left. apply in_flat_map. exists e. split; [apply drawn_app_exact; split; assumption|exact Hin].
+Qed.
+
+(* every field line of the view belongs to a block of that application: the whole class section is built from
+   drawn (Some a), and relationship lines start at its classes only (dm_edges_exact_partial: P ranges over drawn) *)
+Example view_prefix_names : exists o,
+  draw (Some 2%positive)
+       [ {| e_app := 2%positive; e_name := [4%positive]; e_def := DTuple [(1%positive, FPrim 4)] |};
+         {| e_app := 3%positive; e_name := [4%positive]; e_def := DTuple [(1%positive, FPrim 4)] |} ] = Ok o /\
+  o = [IClass 0 [2%positive; 4%positive] HClass; IField 1%positive (LPrim 4); IEnd].
+Proof. eexists. split; [vm_compute; reflexivity|reflexivity]. Qed.
